@@ -2239,11 +2239,14 @@ func (b transportResponseBody) Close() error {
 	cs := b.cs
 	cc := cs.cc
 
+	alreadyClosed := cs.bufPipe.Err() == errClosedResponseBody
 	cs.bufPipe.BreakWithError(errClosedResponseBody)
 	cs.abortStream(errClosedResponseBody)
 
+	// A broken pipe keeps reporting the bytes that were unread when it was
+	// broken: return their credit only on the first Close.
 	unread := cs.bufPipe.Len()
-	if unread > 0 {
+	if unread > 0 && !alreadyClosed {
 		cc.mu.Lock()
 		// Return connection-level flow control.
 		connAdd := cc.inflow.add(unread)
